@@ -140,17 +140,29 @@ fn main() {
                                 e
                             } else { break };
                             idx += 1;
-                            let delta = match &e {
-                                Ev::Write(k, v, x) => {
-                                    let cmd = match x { Some(ms) => Command::setex(k.clone(), (*ms / 1000) as i64, SDS::new(v.clone())), None => Command::set(k.clone(), SDS::new(v.clone())) };
-                                    h.execute(cmd).await.1.map(|d| d.value)
-                                }
-                                Ev::Delete(k) => h.execute(Command::Del(vec![k.clone()])).await.1.map(|d| d.value),
-                                Ev::HSet(k, fs) => h.execute(Command::HSet(k.clone(), fs.iter().map(|(f, v)| (SDS::from_str(f), SDS::new(v.clone()))).collect())).await.1.map(|d| d.value),
-                                Ev::HDel(k, fs) => h.execute(Command::HDel(k.clone(), fs.iter().map(|f| SDS::from_str(f)).collect())).await.1.map(|d| d.value),
+                            let cmd = match &e {
+                                Ev::Write(k, v, x) => Some(match x { Some(ms) => Command::setex(k.clone(), (*ms / 1000) as i64, SDS::new(v.clone())), None => Command::set(k.clone(), SDS::new(v.clone())) }),
+                                Ev::Delete(k) => Some(Command::Del(vec![k.clone()])),
+                                Ev::HSet(k, fs) => Some(Command::HSet(k.clone(), fs.iter().map(|(f, v)| (SDS::from_str(f), SDS::new(v.clone()))).collect())),
+                                Ev::HDel(k, fs) => Some(Command::HDel(k.clone(), fs.iter().map(|f| SDS::from_str(f)).collect())),
                                 Ev::Remote(k, v) => { h.apply_remote_delta(ReplicationDelta::new(k.clone(), v.clone(), v.timestamp.replica_id)); None }
                                 Ev::Recover(k, v) => { h.apply_recovered_state(k.clone(), v.clone()); None }
                             };
+                            let delta = match cmd {
+                                Some(c) => {
+                                    let (reply, d) = h.execute(c).await;
+                                    if matches!(reply, redis_sim::redis::RespValue::Error(_)) {
+                                        // the executor refused the command (WRONGTYPE): the glue records
+                                        // nothing, the replication state is untouched - for the shard
+                                        // model this is a no-op event
+                                        let last = evs.len() - 1;
+                                        if idx - 1 == last || idx - 1 < evs.len() { evs[idx - 1] = Ev::Delete("zz-noop".to_string()); }
+                                        None
+                                    } else { d.map(|d| d.value) }
+                                }
+                                None => None,
+                            };
+                            let e = evs[idx - 1].clone();
                             if let Some(d) = &delta { feed_peers(&mut rng, &mut peers, &e, d); }
                             observed.push(Obs { clock: None, delta });
                             tokio::task::yield_now().await;
